@@ -24,6 +24,7 @@ type Query struct {
 	Text   string
 	Params map[string]string // parameter name -> SMT constant holding its entry value
 	Observe []obsTerm        // terms whose model values describe the slice / map arguments (replay)
+	Weak   bool              // the path passed a loop head without invariants: a model need not be a reachable state
 	Broken string            // the contract clause cannot be evaluated on this tree (it names something that is gone): never discharged
 }
 
@@ -438,6 +439,7 @@ func (x *Exec) oblige(st *State, kind, name string, tags []string, goal string) 
 	q := &Query{Ob: x.fn.name() + "#" + name, Kind: kind, Func: x.fn.name(), Tags: tags, Goal: implies(st.guard(), goal), Expect: "unsat", Params: x.params, Observe: x.observe}
 	q.PC = st.pc[:len(st.pc):len(st.pc)]
 	q.Trail = st.trail[:len(st.trail):len(st.trail)]
+	q.Weak = st.weak
 	x.qs = append(x.qs, q)
 	// afterwards the fact may be used - except for postconditions, which are checked
 	// independently of each other (a failing one must not mask the next)
